@@ -152,7 +152,7 @@ class ScriptedPeer(threading.Thread):
 
 # ============================================================================= socket server running the simulator
 class SimServer(threading.Thread):
-    def __init__(self, sim_factory, rcvbuf=None, recv_chunk=65536, recv_delay=0.0, send_frag=None, send_pause=0.0, max_conns=4, reset_after=None):
+    def __init__(self, sim_factory, rcvbuf=None, recv_chunk=65536, recv_delay=0.0, send_frag=None, send_pause=0.0, max_conns=4, reset_after=None, fin_after=None):
         threading.Thread.__init__(self, daemon=True)
         self.sim_factory = sim_factory
         self.lsock = socket.socket()
@@ -172,6 +172,7 @@ class SimServer(threading.Thread):
         self.max_conns = max_conns
         self.frag_i = 0
         self.reset_after = reset_after      # abort the FIRST connection (RST) once the device has seen this many host packets
+        self.fin_after = fin_after          # half-close the FIRST connection (FIN: end-of-stream for the host) once the device has seen this many host packets
         self.resets = 0
 
     def run(self):
@@ -192,6 +193,7 @@ class SimServer(threading.Thread):
                 sim.new_connection()
                 self.sims.append(sim)
                 conn.settimeout(0.02)
+                half_closed = set()
                 try:
                     while not self.stop_flag:
                         try:
@@ -210,6 +212,15 @@ class SimServer(threading.Thread):
                             conn.setsockopt(socket.SOL_SOCKET, socket.SO_LINGER, struct.pack("ii", 1, 0))
                             self.resets += 1
                             break
+                        if self.fin_after is not None and len(self.sims) == 1 and len(sim.host_log) >= self.fin_after:
+                            if id(conn) not in half_closed:
+                                try:
+                                    conn.shutdown(socket.SHUT_WR)
+                                except OSError:
+                                    pass
+                                self.fins = getattr(self, "fins", 0) + 1
+                                half_closed.add(id(conn))
+                            continue        # keep reading (and discarding) what the host still writes; nothing is sent any more
                         while True:
                             nxt = sim.next_packet()
                             if nxt is None:
@@ -948,4 +959,48 @@ def _check_ctor_case(case):
             return Violation("session-differs-from-in-memory", "connect() -> %r / %r" % (rec.get("connect"), rec.get("connect_exc"))), info
         if rec.get("shell") != "hi\n":
             return Violation("session-differs-from-in-memory", "shell('echo hi') -> %r / %r" % (rec.get("shell"), rec.get("shell_exc"))), info
+    return None, info
+
+
+# ============================================================================= C11 over real TCP: end-of-stream in the middle of an operation
+EOF_OPS = {
+    "shell": ({"services": {b"shell:ls": [b"ab", b"cd"]}}, {"op": "shell", "cmd": "ls"}),
+    "pull": ({"fs": {b"/f": {"content": {"pat": b"abcdef", "n": 40}, "mode": 0o100644, "mtime": 3}}, "recv_sizes": [6]}, {"op": "pull", "path": "/f", "dest": "bytesio"}),
+    "push": ({"maxdata": 4096}, {"op": "push", "src": {"kind": "bytesio", "content": {"pat": b"xy", "n": 9000}}, "path": "/p", "mtime": 9}),
+    "stat": ({"fs": {b"/f": {"content": {"pat": b"abcdef", "n": 40}, "mode": 0o100644, "mtime": 3}}}, {"op": "stat", "path": "/f"}),
+}
+
+
+def eof_cases():
+    out = []
+    for api in ("sync", "async"):
+        for name in sorted(EOF_OPS):
+            for k in (1, 2, 3, 4, 6):
+                out.append({"api": api, "opname": name, "fin_after": k})
+    return out
+
+
+def check_eof_case(case):
+    """The device half-closes the TCP connection (end-of-stream for the host) after its k-th packet: connect()/the operation ends with an error in
+    bounded time -- or completes, if nothing more was needed -- and never hangs or spins."""
+    dev, op = EOF_OPS[case["opname"]]
+    op = dict(op, read_timeout_s=0.5, transport_timeout_s=0.25)
+    scn = {"device": dict(dev), "connect": {"read_timeout_s": 0.5, "transport_timeout_s": 0.25}, "ops": [op]}
+    t0 = time.monotonic()
+    out = run_session(scn, case["api"], server_kw={"fin_after": case["fin_after"]}, transport_timeout=0.25)
+    elapsed = time.monotonic() - t0
+    info = {"classes": [case["api"], "tcp-eof", case["opname"]], "nontrivial": True,
+            "sample": dict(case, results=[r.get("exc", "ok") for r in out.results], elapsed=round(elapsed, 2))}
+    if out.server_error is not None:
+        raise env.HarnessError("socket server failed: %r" % (out.server_error,))
+    for opx, res in zip(out.ops, out.results):
+        if res.get("exc") == "Inconclusive":
+            return Violation("operation-hung", "%s over TCP: after the device's end-of-stream the call did not finish within %d s (read_timeout_s=0.5)" % (opx["op"], WATCHDOG_S * 3)), info
+        if "exc" not in res:
+            v = expect.compare(scn, opx, res, scn["device"])
+            if v is not None:
+                return Violation("fabricated-result-after-eof", v.detail), info
+    # two calls, each bounded by a small multiple of read_timeout_s + transport_timeout_s (pull may add its closing handshake): 0.75 s each; generous wall-clock margin
+    if elapsed > 12.0:
+        return Violation("timeout-too-late", "connect + %s needed %.1f s after an end-of-stream with read_timeout_s=0.5, transport_timeout_s=0.25" % (case["opname"], elapsed)), info
     return None, info
